@@ -303,7 +303,7 @@ impl Butterfly5Avx<f32> {
 impl<T> Butterfly5Avx<T> {
     #[target_feature(enable = "avx", enable = "fma")]
     unsafe fn perform_fft_f32(&self, mut buffer: impl AvxArrayMut<f32>) {
-        let input0 = _mm_castpd_ps(_mm_load1_pd(buffer.input_ptr() as *const f64)); // load the first element of the input, and duplicate it into both complex number slots of input0
+        let input0 = _mm_castpd_ps(_mm_set1_pd((buffer.input_ptr() as *const f64).read_unaligned())); // load the first element of the input, and duplicate it into both complex number slots of input0
         let input12 = buffer.load_partial2_complex(1);
         let input34 = buffer.load_partial2_complex(3);
 
@@ -372,7 +372,7 @@ impl<T> Butterfly7Avx<T> {
     #[target_feature(enable = "avx", enable = "fma")]
     unsafe fn perform_fft_f32(&self, mut buffer: impl AvxArrayMut<f32>) {
         // load the first element of the input, and duplicate it into both complex number slots of input0
-        let input0 = _mm_castpd_ps(_mm_load1_pd(buffer.input_ptr() as *const f64));
+        let input0 = _mm_castpd_ps(_mm_set1_pd((buffer.input_ptr() as *const f64).read_unaligned()));
 
         // we want to load 3 elements into 123 and 3 elements into 456, but we can only load 4, so we're going to do slightly overlapping reads here
         // we have to reverse 456 immediately after loading, and that'll be easiest if we load the 456 into the latter 3 slots of the register, rather than the front 3 slots
@@ -495,7 +495,7 @@ impl Butterfly11Avx<f32> {
 impl<T> Butterfly11Avx<T> {
     #[target_feature(enable = "avx", enable = "fma")]
     unsafe fn perform_fft_f32(&self, mut buffer: impl AvxArrayMut<f32>) {
-        let input0 = _mm_castpd_ps(_mm_load1_pd(buffer.input_ptr() as *const f64)); // load the first element of the input, and duplicate it into both complex number slots of input0
+        let input0 = _mm_castpd_ps(_mm_set1_pd((buffer.input_ptr() as *const f64).read_unaligned())); // load the first element of the input, and duplicate it into both complex number slots of input0
         let input1234 = buffer.load_complex(1);
         let input56 = buffer.load_partial2_complex(5);
         let input78910 = buffer.load_complex(7);
@@ -679,7 +679,7 @@ impl<T> Butterfly9Avx<T> {
         // we're going to load these elements in a peculiar way. instead of loading a row into the first 3 element of each register and leaving the last element empty
         // we're leaving the first element empty and putting the data in the last 3 elements. this will let us do 3 total complex multiplies instead of 4.
 
-        let input0_lo = _mm_castpd_ps(_mm_load1_pd(buffer.input_ptr() as *const f64));
+        let input0_lo = _mm_castpd_ps(_mm_set1_pd((buffer.input_ptr() as *const f64).read_unaligned()));
         let input0_hi = buffer.load_partial2_complex(1);
         let input0 = AvxVector256::merge(input0_lo, input0_hi);
         let input1 = buffer.load_complex(2);
@@ -769,7 +769,7 @@ impl<T> Butterfly12Avx<T> {
         // we're leaving the first element empty and putting the data in the last 3 elements. this will save us a complex multiply.
 
         // for everything but the first element, we can do overlapping reads. for the first element, an "overlapping read" would have us reading from index -1, so instead we have to shuffle some data around
-        let input0_lo = _mm_castpd_ps(_mm_load1_pd(buffer.input_ptr() as *const f64));
+        let input0_lo = _mm_castpd_ps(_mm_set1_pd((buffer.input_ptr() as *const f64).read_unaligned()));
         let input0_hi = buffer.load_partial2_complex(1);
         let input_rows = [
             AvxVector256::merge(input0_lo, input0_hi),
